@@ -61,4 +61,4 @@ Definition rid : cls -> cls := fun c => c.
 Definition toks_of (x : query) : list dtok := match str_toks rid FUEL x with Ok ts => ts | Err _ => [] end.
 Definition strict_ok (x : query) : bool :=
   let c := top_cls_r rid x in
-  forallb (strict_tokb {| v_q := cls_q c; v_sq := cls_sq c; v_aq := cls_aq c; v_as := cls_askw c |} (qalias_quote c)) (toks_of x).
+  forallb (strict_tokb {| v_q := cls_q c; v_sq := cls_sq c; v_aq := cls_aq c; v_as := cls_askw c; v_adm := fun _ => true |} (qalias_quote c)) (toks_of x).
